@@ -429,12 +429,31 @@ def is_irreducible_rabin(p, f):
 BRUTE_LIMIT = 3000   # max number of trial divisors per brute-force test
 
 
-def is_irreducible(p, f):
-    """Brute force when affordable, Rabin's test otherwise."""
+def small_factor(p, f, limit=400):
+    """A monic factor of small degree found by trial division (at most `limit` candidates), or None."""
     f = norm(p, f)
+    tried = 0
+    for d in range(1, deg(f) // 2 + 1):
+        tried += p ** d
+        if tried > limit:
+            break
+        for g in all_monic(p, d):
+            if not mod(p, f, g):
+                return g
+    return None
+
+
+def is_irreducible(p, f):
+    """Brute force (the definition) when affordable; otherwise a found small factor proves reducibility and
+    Rabin's test decides the rest."""
+    f = norm(p, f)
+    if deg(f) < 1:
+        return False
     h = deg(f) // 2
     if sum(p ** k for k in range(1, h + 1)) <= BRUTE_LIMIT:
         return is_irreducible_brute(p, f)
+    if small_factor(p, f) is not None:
+        return False
     return is_irreducible_rabin(p, f)
 
 
